@@ -47,6 +47,7 @@ PROPS = {
         "rule": "op 26: well-formed messages (a third forced to log messages incl. invalid levels) x filter configurations (each criterion absent/present, sets containing/not containing the message's ids, duplicated ids, counts around the set sizes, all level numbers); op 27 both conversions incl. all 256 level numbers.",
     },
     "C11": {
+        "extra_property_files": ["C11b"],
         "rule": "ops 50/51: abstract FIBEX models over the full S_*/A_* vocabulary (0-4 frames, PDUs, signals, codings; sequence numbers incl. 0, 2^32, 2^64-1 and ties; duplicated frame/PDU/signal/coding ids; unknown signal references; dangling PDU references; optional application/context ids) laid out in a permuted element order over 1-3 files, rendered to XML either exactly in the canonical event shape of Spec/FibexSpec.v (style 0) or as a tool-written document (declaration, root, group wrappers, indentation, an ECU block with its own MANUFACTURER-EXTENSION; style 1); the real gather_fibex_data / extract_metadata run on the files, the model on the quick-xml event dump of the same files; lookups with and without extended-header ids.",
         "assumptions": ["quick-xml 0.29 is the tokenizer and is not modelled: the model starts at the event list the same quick-xml yields for the same text (re-derived and compared on every case)",
                         "for style-0 files the model checks that the event list IS Spec.files_of(layout) (the hypothesis shape of c11_load); style-1 documents are outside the canonical shape and are covered by the correspondence and the oracle only",
